@@ -221,7 +221,7 @@ def run(ctx):
     ctx.say("programs %d, comparisons %d, ref disagreements %d, context dependences %d, limit %d, outcomes %s" % (len(byprog), n_cmp, n_dis, n_ctxdiff, n_limit, outcome_kinds))
     return ctx.finish("translation_validation", cov, assumptions=[
         "reference semantics: harness/C02/refint.py (Python, independent) and lean/JanetModel/Lang/Sem.lean; both are specification choices",
-        "programs whose meaning depends on janet's late read of variable operands ((tuple m (set m 5)) = (5 5)) or on the hash order of table/struct literal entries are excluded by the generator",
+        "programs whose meaning depends on janet's late read of operands ((tuple m (set m 5)) = (5 5); a spliced array is read when the call is made, after later operands may have changed it) or on the hash order of table/struct literal entries are excluded by the generator",
         "runtime-raised error values are compared as a class (<rt>), user-raised error values exactly; positions exactly",
         "compile error 'cannot capture local in closure' (register limit) is accepted as a resource limit, not as a wrong result",
     ])
